@@ -82,7 +82,9 @@ func main() {
 		D := r.Pick(4, 5)
 		r.Part("E1-streams-x-drivers-x-uniform-chunks", func(t *explore.T) {
 			all := collect(D, nil)
-			chunks := []int{0, 1, 2, 3, 5}
+			// -1: the stream's last bytes arrive together with io.EOF; -2: every second Read
+			// returns (0, nil) first, chunks of 2
+			chunks := []int{0, 1, 2, 3, 5, -1, -2}
 			t.Par(len(all), func(i int) {
 				st := all[i]
 				data, _ := streams.Wire(st.frames)
@@ -93,7 +95,15 @@ func main() {
 							return fmt.Sprintf("%s %s driver=%s chunk=%d", st.side, streams.Describe(st.frames), d.Name, ch)
 						}, func() *explore.Fail {
 							src := env.NewSrc(data)
-							src.Policy = env.FixedChunk(ch)
+							switch {
+							case ch > 0:
+								src.Policy = env.FixedChunk(ch)
+							case ch == -1:
+								src.WithLast = true
+							case ch == -2:
+								src.ZeroEvery = 2
+								src.Policy = env.FixedChunk(2)
+							}
 							var res drivers.Result
 							d.Run(src, st.side, drivers.Cfg{}, &res)
 							return judge(d, st, &res, src)
